@@ -468,7 +468,7 @@ func (g *gen) mutantBlock(parent *node, kind string) (*node, bool) {
 		if !ok {
 			return nil, false
 		}
-		ghost := g.mkTx([]outRef{o}, 1, false, 0) // never included anywhere
+		ghost := g.mkTx([]outRef{o}, 1, false, h+1000) // never included anywhere (its time range makes it unlike any generated transaction)
 		txs = append(txs, g.mkTx([]outRef{{cl.Out{Tx: ghost, Pos: 0}, 0, h}}, 1, false, 0))
 	case "spend-spent":
 		var cand []outRef
